@@ -76,6 +76,9 @@ def _gen_case(g: VGen, opts: dict) -> dict:
     ret = {"annotated": r.random() < 0.6, "overridden": r.random() < 0.15, "ignore": r.random() < 0.15}
     if ret["annotated"]:
         ret["av"] = g.gen_v(0)
+        if r.random() < 0.12:
+            # `-> None`, written as the bare constant (half of the time; otherwise Annotated[Any, none_validator])
+            ret["av"] = {"k": "none", "vid": g.vid(), "coerce": None}
     if ret["overridden"]:
         ret["ov"] = g.gen_v(0)
     extra_ignored = ["zz"] if r.random() < 0.2 else []
@@ -187,6 +190,8 @@ def make_function(ctx: wire.Ctx, case: dict, rec: List[Any]) -> Tuple[Any, Dict[
     if ret["annotated"]:
         rv = build.mk_validator(ctx, ret["av"], [])
         rann = typing.Annotated[Any, rv]
+        if ret["av"]["k"] == "none" and not ret["av"].get("coerce") and ret["av"]["vid"] % 2 == 0:
+            rann = None      # the annotation a function returning nothing actually carries
         vals["->"] = rv
     if ret["overridden"]:
         ov = build.mk_validator(ctx, ret["ov"], [])
